@@ -77,3 +77,23 @@ Definition has_amount_text (rest : option str) : bool :=
   | Some (c :: _) => negb (Z.eqb c 59) && negb (Z.eqb c 61)
   | _ => false
   end.
+
+(* the state flag parse_post reads before the account (textual.cc `// Parse the state flag`): p = skip_ws(line); a `*`
+   (cleared) or `!` (pending) there is consumed together with the white space after it - ONE flag only, whatever follows
+   belongs to the account name *)
+Inductive pstate := SUncleared | SCleared | SPending.
+
+Definition STAR : Z := 42.
+Definition BANG : Z := 33.
+
+Definition strip_state (line : str) : pstate * str :=
+  match skip_ws line with
+  | c :: t => if Z.eqb c STAR then (SCleared, skip_ws t)
+              else if Z.eqb c BANG then (SPending, skip_ws t)
+              else (SUncleared, c :: t)
+  | [] => (SUncleared, [])
+  end.
+
+(* a whole posting line: (state flag, ((kind, account), amount text)) *)
+Definition read_post_line (line : str) : pstate * ((acct_kind * str) * option str) :=
+  let (st, l) := strip_state line in (st, split_post_line l).
